@@ -240,7 +240,7 @@ def run(ctx):
     else:
         correspondence(ctx, 4, [1, 3])
         with patched_buf(U, 1024):
-            format_oracle(ctx, [30, 3000], [0, 10 ** 9], 60)
+            format_oracle(ctx, [30, 9000], [0, 10 ** 9], 60)
 
 
 def search(ctx, broken):
